@@ -358,6 +358,48 @@ def every_value(chk: Check, f: Func, fl: Flow) -> None:
         raise AnalysisError(f"{f.where}: no loop over the values of the walked op found")
 
 
+def alias_closure(repo: Repo, chk: Check, f: Func, fl: Flow) -> None:
+    """two ops share a buffer also when they name it through different values: a copy into `subview %o` and a kernel reading `%o`. The values whose users
+    are examined therefore include, for every operand and result, the buffer it is a view of and the other views of that buffer"""
+    chk.rule("C13.alias-closure", "the users examined for a walked op are those of its operands and results AND of every value standing for the same buffer: the scan "
+             "climbs from a view to its source (subview, casts) and descends to all views of that source", floor=1)
+    uses = [s for s in fl.stmts(ast.For) if s.reachable and norm.match(T("$v.uses"), s.node.iter) is not None and isinstance(norm.match(T("$v.uses"), s.node.iter)["v"], ast.Name)]
+    n_ = 0
+    for s in uses:
+        v = norm.match(T("$v.uses"), s.node.iter)["v"].id
+        outer = [l for l in s.loops if isinstance(l, ast.For) and isinstance(l.target, ast.Name) and l.target.id == v]
+        if not outer:
+            continue
+        n_ += 1
+        # helpers the value source goes through
+        helpers = [c for c in ast.walk(outer[-1].iter) if isinstance(c, ast.Call) and isinstance(c.func, ast.Name) and c.func.id in f.module.funcs]
+        up = down = False
+        kinds: set[str] = set()
+        for c in helpers:
+            h = f.module.funcs[c.func.id]
+            chk.analysed(h.key)
+            for n in ast.walk(h.node):
+                if isinstance(n, ast.While) and any(isinstance(x, ast.Call) and callee_name(x) == "isinstance" for x in ast.walk(n.test)) \
+                        and any(isinstance(x, ast.Attribute) and x.attr in ("operands", "source", "input") for b_ in n.body for x in ast.walk(b_)):
+                    up = True
+                if isinstance(n, ast.For) and norm.match(T("$a.uses"), n.iter) is not None and any(
+                        isinstance(x, ast.Attribute) and x.attr in ("results", "result", "dest") for b_ in n.body for x in ast.walk(b_)):
+                    down = True
+            for x in ast.walk(h.node):
+                if isinstance(x, ast.Call) and callee_name(x) == "isinstance" and len(x.args) == 2:
+                    cls_e = x.args[1]
+                    if isinstance(cls_e, ast.Name) and isinstance(f.module.consts.get(cls_e.id), ast.AST):
+                        cls_e = f.module.consts[cls_e.id]
+                    kinds |= {n_2.attr if isinstance(n_2, ast.Attribute) else n_2.id for n_2 in ast.walk(cls_e) if isinstance(n_2, (ast.Attribute, ast.Name))}
+        ok = up and down and "SubviewOp" in kinds
+        chk.result(ok, "C13.alias-closure", f"{f.key}:values#{n_}", outer[-1].lineno and f"{f.module.relpath}:{outer[-1].lineno}",
+                   f"users are examined for every value standing for the same buffer (views followed: {sorted(k for k in kinds if k.endswith('Op') or k == 'LayoutCast')})",
+                   "only the users of the op's own operands and results are examined: a data-mover copy into `memref.subview %o` and a kernel reading `%o` share no "
+                   "SSA value, so no barrier is placed between them (findings/C13_copy_into_subview.mlir)")
+    if n_ == 0:
+        raise AnalysisError(f"{f.where}: no loop over the values of the walked op found")
+
+
 def _symmetric_tail(repo: Repo, chk: Check, f: Func, fl: Flow) -> None:
     # resets and insertion point
     ins = [s for s in fl.calls("insert_op") if s.reachable]
@@ -406,6 +448,7 @@ def _symmetric_tail(repo: Repo, chk: Check, f: Func, fl: Flow) -> None:
                    "only the first walked branch gets a barrier, the other path from the producer to its consumer has none (likewise a consumer behind a loop whose "
                    "body holds the barrier)")
     every_value(chk, f, fl)
+    alias_closure(repo, chk, f, fl)
     walk = [s for s in fl.stmts(ast.For) if s.reachable and norm.match(T("$m.walk()"), s.node.iter) is not None]
     chk.result(bool(walk), "C13.symmetric", f"{f.key}:walk-order", f.where, "the module is walked in program order (no reverse / region_first)")
     # known limitation: only the direct parent loop is considered
